@@ -139,6 +139,41 @@ def parse(ep, flags):
     return None
 
 
+DISPATCH = {"nbdiff": ("diff", ["a.ipynb", "b.ipynb"]), "nbmerge": ("merge", ["b.ipynb", "l.ipynb", "r.ipynb"]),
+            "nbshow": ("show", ["a.ipynb"]), "nbdiff-web": ("diff-web", ["a.ipynb", "b.ipynb"]),
+            "nbmerge-web": ("merge-web", ["b.ipynb", "l.ipynb", "r.ipynb"]), "server": ("server", [])}
+
+
+def parse_other_invocation(ep, flags):
+    """Namespace parsed when the entry point is run the other way it can be run: through the dispatcher
+    (`nbdime diff ...`, program name 'nbdime'), or for the server as a module (`python -m nbdime.webapp.nbdimeserver`).
+    The namespace is captured where the command's main() receives it from its parser."""
+    from nbdime.args import ConfigBackedParser
+    orig = ConfigBackedParser.parse_args
+
+    def cap(self, *a, **k):
+        raise _Captured(orig(self, *a, **k))
+    ConfigBackedParser.parse_args = cap
+    try:
+        with contextlib.redirect_stderr(io.StringIO()), contextlib.redirect_stdout(io.StringIO()):
+            if ep == "server" and flags is not None and len(flags) % 4 == 2:
+                from nbdime.webapp import nbdimeserver
+                sys.argv = ["nbdimeserver.py"]
+                nbdimeserver.main(list(flags))
+            else:
+                from nbdime import __main__ as disp
+                cmd, files = DISPATCH[ep]
+                sys.argv = ["nbdime"]
+                disp.main_dispatch([cmd] + list(flags) + files)
+    except _Captured as c:
+        return c.opts
+    finally:
+        ConfigBackedParser.parse_args = orig
+        if hasattr(ConfigBackedParser, "default_entrypoint"):
+            ConfigBackedParser.default_entrypoint = None
+    return None
+
+
 def _split_global(flags):
     """--log-level belongs to the top-level parser of the git tools"""
     glob, rest = [], []
@@ -235,6 +270,9 @@ def evaluate(task):
             try:
                 ns = parse(ep, flags)
                 res["parsed"] = getattr(ns, opt, "<missing>") if ns is not None else "<no parser>"
+                if ep in DISPATCH and (k % 2 == 0 or ep == "server"):
+                    ns2 = parse_other_invocation(ep, flags)
+                    res["parsed_other"] = getattr(ns2, opt, "<missing>") if ns2 is not None else "<no parser>"
             except SystemExit as e:
                 res["parse_raised"] = "SystemExit %s" % (e.code,)
             except Exception as e:  # noqa
@@ -332,6 +370,10 @@ def run():
         if "parsed" in res and res["parsed"] != exp and not (opt == "port" and not c["sites"] and not c["flag"]):
             chk.violation("parser:%s:%s:%s" % (opt, kind, c["winner"]),
                           "%s parser gives %s = %r but the documented rule gives %r" % (ep, opt, res["parsed"], exp), info)
+        if "parsed_other" in res and res["parsed_other"] != exp and not (opt == "port" and not c["sites"] and not c["flag"]):
+            chk.violation("parser-other-invocation:%s:%s:%s" % (opt, kind, c["winner"]),
+                          "%s run through the nbdime dispatcher (or, the server, as a module) gives %s = %r but the documented rule "
+                          "gives %r" % (ep, opt, res["parsed_other"], exp), info)
     chk.cov["traces_validated_against_impl"] = len(tasks)
     chk.notes["cases_materialised"] = len(tasks)
     chk.sample({"entry_point": EPS[meta[0][0]], "option": meta[0][1], "case": meta[0][2]})
@@ -342,7 +384,9 @@ def run():
     chk.assumptions += ["section lists per entry point are taken from docs/source/config.rst, not from the class hierarchy",
                         "priority among the two non-cwd directories (JUPYTER_CONFIG_PATH entry, JUPYTER_CONFIG_DIR) is jupyter_core's",
                         "for the git tools whose parser is built inside main(), the parsed namespace is captured by replacing the "
-                        "function main() hands it to"]
+                        "function main() hands it to",
+                        "nbdiff, nbmerge, nbshow, nbdiff-web, nbmerge-web and the server are also parsed the other way they can be "
+                        "started (`nbdime <command>`; `python -m nbdime.webapp.nbdimeserver`): the same resolution is expected"]
     return chk.finish()
 
 
